@@ -18,9 +18,18 @@ Checks of a control-flow operator invocation (caller frame = the frame executing
   opts           loops: dict; for_stmt: has 'iterate_names'; the other keys are exactly the directive the user placed
                  in THAT loop (the generator gives loop number k the directive maximum_iterations=1000+k, so the value
                  identifies the loop) and iterate_names is that loop's unparsed target
-(*) fails on the pinned tree for a composite entry missing before the statement: class
-`missing_composite_written_back`, computed from the case (some composite name of the tuple raised
-KeyError/AttributeError when evaluated in the caller frame before the probe).
+Finding classes (each computed from the case, never from "it failed"; each is the negation of a hypothesis of a
+`_partial` theorem of Props/C03.lean):
+  missing_composite_written_back      get_set (*): some composite name of the tuple raised KeyError/AttributeError when
+                                      evaluated in the caller frame before the probe   (Lean: missingComposite c σ)
+  composite_base_undefined            a probe raised and the root variable of a composite name holds ag__.Undefined
+  state_entry_indexes_by_state_entry  set_get: a composite name is subscripted by a variable that is itself in the tuple
+                                      (Lean: dependentEntries es)
+  aliased_state_entries               set_get: two composite names denote the same container slot at call time
+                                      (Lean: aliasedEntries es σ)
+Symbol names that are not Python expressions (str(QN) does not escape quotes: dd['it's']) are only checked on the
+read side.  Every probe is undone: values written back, then every container of a composite entry gets exactly the
+content it had before the probes.
 """
 import ast, inspect, sys
 
